@@ -30,12 +30,14 @@ pub proof fn lemma_status_taxonomy(k: Kind)
 
 impl SignatureError {
 //@ fn error.rs impl SignatureError :: error_code
+//@ params
 //@ props C08 C13
 //@ ret r
 //@ spec
     ensures r@ == code(kind(*self)), //# C13 name=code_fixed_by_kind
 //@ end
 //@ fn error.rs impl SignatureError :: http_status
+//@ params
 //@ props C08 C13
 //@ ret r
 //@ spec
@@ -45,12 +47,14 @@ impl SignatureError {
 
 impl ServiceError for SignatureError {
 //@ fn error.rs impl ServiceError for SignatureError :: error_code
+//@ params
 //@ props C08 C13
 //@ ret r
 //@ spec
     ensures r@ == code(kind(*self)), //# C13 name=code_fixed_by_kind
 //@ end
 //@ fn error.rs impl ServiceError for SignatureError :: http_status
+//@ params
 //@ props C08 C13
 //@ ret r
 //@ spec
@@ -71,6 +75,7 @@ impl vstd::std_specs::convert::FromSpecImpl<BoxError> for SignatureError {
 }
 impl From<IOError> for SignatureError {
 //@ fn error.rs impl From<IOError> for SignatureError :: from
+//@ params e
 //@ props C08 C13
 //@ ret r
 //@ spec
@@ -80,6 +85,7 @@ impl From<IOError> for SignatureError {
 
 impl From<BoxError> for SignatureError {
 //@ fn error.rs impl From<Box<dyn Error + Send + Sync>> for SignatureError :: from
+//@ params e
 //@ props C08 C14 C13
 //@ ret r
 //@ replace 1 `Box<dyn Error + Send + Sync>` => `BoxError`
